@@ -1101,7 +1101,12 @@ where
 
                 // Unique index semantics: allow idempotent insert of the same (doc_id, field_value)
                 // while rejecting a different doc_id for an existing field_value.
-                if !self.config.allow_duplicates && !posting.2.contains(&doc_id) {
+                // A posting that a concurrent `remove` has just emptied (and is about to
+                // drop) has no owner: it must not refuse the new owner.
+                if !self.config.allow_duplicates
+                    && !posting.2.contains(&doc_id)
+                    && !posting.2.is_empty()
+                {
                     return Err(BTreeError::AlreadyExists {
                         name: self.name.clone(),
                         id: json_value(&doc_id),
@@ -1413,6 +1418,7 @@ where
             for field_value in &field_values {
                 if let Some(posting) = self.postings.get(field_value)
                     && !posting.2.contains(&doc_id)
+                    && !posting.2.is_empty()
                 {
                     return Err(BTreeError::AlreadyExists {
                         name: self.name.clone(),
@@ -1452,7 +1458,10 @@ where
                     // Re-check uniqueness constraint atomically while holding the entry lock.
                     // The pre-check above may have passed, but a concurrent insert could have
                     // added a different doc_id between the pre-check and here.
-                    if !self.config.allow_duplicates && !posting.2.contains(&doc_id) {
+                    if !self.config.allow_duplicates
+                        && !posting.2.contains(&doc_id)
+                        && !posting.2.is_empty()
+                    {
                         deferred_error = Some(BTreeError::AlreadyExists {
                             name: self.name.clone(),
                             id: json_value(&doc_id),
